@@ -248,6 +248,35 @@ FUNCS = ["CFG.contains", "CFG.__contains__", "CFG.generate_epsilon", "CFG.to_nor
          "Production.__init__", "Variable", "Terminal"]
 RULE = "grammar with >= 2 productions and a non-empty language (up to the bound)"
 
+
+# ---- terminals whose values differ but print alike (Terminal(1) / Terminal("1")): the helper variables that
+#      to_normal_form names after the *text* of a terminal must still be one per terminal
+SAMETEXT = [(1, "1"), (None, "None")]
+
+
+def _st_oracle(args, obs):
+    prods, terms, words = args
+    return _judge_membership(enc.ref_cfg(prods, 2, terms=list(terms)), words, obs, len(prods))
+
+
+def c08_sametext(t: P2, p: int, which: int) -> bool:
+    """
+    pre: pinned(p=p, h0=t[0], l0=t[1], which=which)
+    pre: (p == 2) & ((0 <= which) & (which < 2))
+    pre: cfg_canonical(t, p, 2, 2, 2)
+    post: _
+    """
+    raw = (t, p, which)
+    prods = enc.decode_cfg(t, p, 2, 2, 2)
+    terms = SAMETEXT[enc.pick(which, 2)]
+    words = all_words(3, list(terms))
+    chx.enter("c08_sametext", raw)
+    g = enc.build_cfg(prods, 2, terms=list(terms))
+    obs = {"contains": chx.guarded(lambda: [bool(g.contains(w)) for w in words]),
+           "in": chx.guarded(lambda: [bool(w in g) for w in words[:4]]),
+           "generate_epsilon": chx.guarded(g.generate_epsilon)}
+    return chx.judge("C08", "c08_sametext", raw, (prods, terms, words), obs, _st_oracle)
+
 CONDS = [
     Cond("C08", c08_p2, _sh_p2,
          {"quick": "all grammars with <=2 productions over variables {S,A}, terminals {a,b}, bodies of length <=2 "
@@ -291,4 +320,11 @@ CONDS = [
           "thorough": "first production S -> eps | S -> x (x in S, A, a)"},
          FUNCS + ["CFG.is_empty", "CFG.get_generating_symbols", "CFG.get_nullable_symbols",
                   "CFG._get_generating_or_nullable"], RULE),
+    Cond("C08", c08_sametext, lambda tier: product_pins(p=[2], h0=[0], l0=[2], which=[0, 1]) if tier == "quick"
+         else product_pins(p=[2], h0=[0, 1], l0=[0, 1, 2], which=[0, 1]),
+         {"quick": "the grammars of c08_p2 with 2 productions whose first production is S -> (2 symbols), over the "
+                   "terminals 1 / '1' or None / 'None' (values differ, texts agree): every word of length <=3 over "
+                   "the two terminals",
+          "thorough": "all grammars with 2 productions over these terminal pairs"},
+         FUNCS + ["CFG._get_productions_with_only_single_terminals"], RULE),
 ]
